@@ -1093,15 +1093,19 @@ theorem compileFile_zero (files : String → Option String) (name : String) : co
 
 theorem compileFile_succ (files : String → Option String) (f : Nat) (name : String) :
     compileFile files (f+1) name =
-      (files name).bind fun src => ((lex src).bind parseMal).bind (assemble (compileFile files f)) := by
+      (files name).bind fun src => (parseSource src).bind (assemble (compileFile files f)) := by
   rw [compileFile]
   cases files name with
   | none => rfl
   | some src =>
     simp only [Option.bind_some]
-    cases (lex src).bind parseMal with
+    cases parseSource src with
     | none => rfl
     | some decls => rfl
+
+/-- a text that lexes completely is parsed as its token list -/
+theorem parseSource_of_lex {src : String} {ts : List Tok} (h : lex src = some ts) : parseSource src = parseMal ts := by
+  simp [parseSource, h]
 
 theorem foldl_metaPut_nodup (ds d0 : List (String × String)) (h : ((d0 ++ ds).map (·.1)).Nodup) :
     ds.foldl (fun d kv => metaPut d kv.1 kv.2) d0 = d0 ++ ds := by
@@ -1165,7 +1169,7 @@ theorem compileFile_prSpec (files : String → Option String) (f : Nat) (name sr
     (hw : WFSpec s) (hfile : files name = some src) (hlex : lex src = some (prSpec s)) :
     compileFile files (f+1) name = some s := by
   rw [compileFile_succ, hfile]
-  simp only [Option.bind_some, hlex, parseMal_prSpec s hw]
+  simp only [Option.bind_some, parseSource_of_lex hlex, parseMal_prSpec s hw]
   exact assemble_declsOf _ s hw
 
 
